@@ -4,7 +4,6 @@ import os
 import random
 
 META = {
-    "disabled": True,
     "level": "model_checking",
     "text": "TLA+ specification of performMembersSelection of the signing and key-generation retry loops on top of the retry "
             "specification (C09), with every shuffle a hidden choice fixed by the first evaluating loop; TLC checks agreement across "
